@@ -31,6 +31,7 @@ MIN_REACH = {
     "contract_evals_choose_batch_settings": {"quick": 300, "thorough": 3000},
     "crops_given_a_size_and_a_count_that_agree": {"quick": 20, "thorough": 60},
     "sows_of_two_thousand_and_more_settings": {"quick": 3, "thorough": 4},
+    "resows_of_count_crops_whose_first_sow_divided_evenly": {"quick": 12, "thorough": 40},
     "reloads_checked": {"quick": 300, "thorough": 3000},
     "resows_accepted": {"quick": 15, "thorough": 60},
     "resows_refused": {"quick": 15, "thorough": 60},
@@ -120,6 +121,12 @@ def cases(ctx):
         for k in range(2, n0 - 1):
             if n0 % k:
                 yield {"resow": True, "n0": n0, "n1": n0 - 1, "mode": "num_batches", "val": k, "reload": bool((n0 + k) % 2), "cases": bool(k % 3 == 0)}
+    for n0 in range(6, ctx.pick(21, 41)):
+        # a crop sown by batch COUNT whose first sow divided EVENLY (12 settings in 4 batches of 3), then sown again with
+        # two settings fewer - by the same object, a reloaded one, or one re-created by the same constructor call
+        for k in range(2, n0 // 3 + 1):
+            if n0 % k == 0:
+                yield {"resow": True, "n0": n0, "n1": n0 - 2, "mode": "num_batches", "val": k, "reload": bool((n0 + k) % 2), "cases": bool(k % 3 == 0)}
     for n0 in range(2, ctx.pick(12, 40)):
         # the same Crop object of a farmer crop sown twice with the same number of settings
         yield {"resow": True, "n0": n0, "n1": n0, "mode": ["num_batches", "batchsize"][n0 % 2], "val": 1 + n0 % 4, "reload": False,
@@ -281,12 +288,12 @@ def run_resow(ctx, case):
             # an accepted sow - the same settings again, or another number of them - honours the size / count asked for
             N = case["n1"]
             wantB = min(case["val"], N) if case["mode"] == "num_batches" else math.ceil(N / case["val"])
-            # (a crop whose FIRST sow divided evenly - n0 a multiple of the count - holds the same three numbers as one that
-            #  was given the batch size: it cannot know which was asked for, and cutting by that size is the other valid reading)
-            ambiguous = case["mode"] == "num_batches" and case["n1"] != case["n0"] and case["n0"] % min(case["val"], case["n0"]) == 0 \
-                and sizes and max(sizes.values()) <= case["n0"] // min(case["val"], case["n0"])
-            if ambiguous:
-                ctx.count("resows_of_evenly_divided_crops_read_as_sized")
+            # (a crop whose FIRST sow divided evenly holds the same three numbers as one that was given the batch size: the
+            #  crop remembers which was asked for)
+            if case["mode"] == "num_batches" and case["n1"] != case["n0"] and case["n0"] % min(case["val"], case["n0"]) == 0:
+                ctx.count("resows_of_count_crops_whose_first_sow_divided_evenly")
+            if False:
+                pass
             elif B != wantB or (case["mode"] == "num_batches" and sizes and max(sizes.values()) - min(sizes.values()) > 1) \
                     or (case["mode"] == "batchsize" and sizes and max(sizes.values()) > case["val"]):
                 bad.append("sowing %s %d settings%s (%s=%d) gave %d batches of sizes %s, the request means %d batches%s" % (
